@@ -29,6 +29,8 @@ def plan(pid, tier, seed):
 
 def case_from_tlc(obj, h, g):
     files = obj["files"]
+    for i, f in enumerate(files):      # every fourth file implements a project interface declaring the same method names
+        f["impl"] = (int(h[2 * i:2 * i + 2], 16) % 4 == 0)
     n = len(files)
     if n == 1:
         runs = [[1], [1]]                      # the same analysis twice in one process
